@@ -113,6 +113,18 @@ def run(lines, out, args):
                         classImplements(M, *[ifs[x] for x in a])
                     metadecl.setdefault(M, []).extend(a)
                     notes = class_objects_bad()
+                    # a class of that metaclass made NOW and asked at once (nothing has computed its own specification yet), and what
+                    # the metaclass object itself is given directly is the metaclass's business, not its classes'
+                    directlyProvides(M, *[I for k_, I in list(ifs.items())[-1:] if k_])
+                    Fresh = M("Fresh%d" % serial, (), {})
+                    want_f = set()
+                    for M_ in M.__mro__:
+                        for x in metadecl.get(M_, []):
+                            want_f |= set(ifs[x].__iro__)
+                    want_f.add(Interface)
+                    if set(providedBy(Fresh).flattened()) != want_f:
+                        notes.append("a class created after the declaration provides %s" % sorted(i.__name__ for i in providedBy(Fresh).flattened()))
+                    directlyProvides(M)
                     after = [tuple(providedBy(o).flattened()) for _, o in watch]
                     if before != after:
                         notes.append("changed: " + ",".join(n_ for (n_, _), b_, a_ in zip(watch, before, after) if b_ != a_))
